@@ -17,7 +17,7 @@ TRUSTED = [
     'modelled, not verified: genshi/template/base.py Template._prepare/_include/_flatten, markup.py _extract_includes/_match '
     '(window of applicable match templates, select() as the content of the matched element), loader.py TemplateLoader.load path arithmetic, '
     'directives py:if/for/def/match, the filter pipelines of markup and text templates '
-    '(hand-written Lean model Genshi.Incl, tied by two-mode correspondence on generated directory trees, single and several requests per loader)',
+    '(hand-written Lean model Genshi.Incl, tied by two-mode correspondence on generated directory trees, single and several requests per loader, the loader\'s prepared templates after every request and after every load of a load-only sequence -- failed renders and preparations that failed part-way included --, and the three hypotheses inH / inHW / inHS evaluated in Lean and in Python on every tree)',
     'the printer from the abstract template language to genshi source text (harness/gen_c11.py source()) and the canonicaliser of event streams',
     'not modelled: expat / the text-template regex parser (templates are generated well-formed; one fixed ill-formed source per class is used for the '
     'eager-syntax-error finding), expression evaluation beyond variable look-up / truthiness / iteration / string splice, attributes, '
